@@ -20,6 +20,7 @@ impl Clone for Atomic { #[verifier::external_body] fn clone(&self) -> (r: Self) 
 impl Clone for HctlToken { #[verifier::external_body] fn clone(&self) -> (r: Self) ensures r == *self { unimplemented!() } }
 impl Clone for HctlTreeNode { #[verifier::external_body] fn clone(&self) -> (r: Self) ensures r == *self { unimplemented!() } }
 impl PartialEq for HctlToken { #[verifier::external_body] fn eq(&self, o: &Self) -> (r: bool) ensures r <==> *self == *o { unimplemented!() } }
+impl PartialEq for HctlTreeNode { #[verifier::external_body] fn eq(&self, o: &Self) -> (r: bool) ensures r <==> *self == *o { unimplemented!() } }
 impl PartialEq for HybridOp { #[verifier::external_body] fn eq(&self, o: &Self) -> (r: bool) ensures r <==> *self == *o { unimplemented!() } }
 
 pub enum SAtom { Prop(Seq<char>), Var(Seq<char>), True, False, Wild(Seq<char>) }
